@@ -223,7 +223,17 @@ func (s *Sim) buildHTTP(client int, sp *ReqSpec, reqId string) (*httpReq, bool) 
 			}
 			q.Set("cursor", tok)
 		} else if sp.RawCursor != "" {
+			// a cursor may be accompanied by search parameters (hostile combinations)
 			q.Set("cursor", sp.RawCursor)
+			if sp.Id != "" {
+				q.Set("id", sp.Id)
+			}
+			if len(sp.States) == 1 && sp.Kind == "SearchPromises" {
+				q.Set("state", sp.States[0])
+			}
+			if sp.Limit != 0 {
+				q.Set("limit", strconv.Itoa(sp.Limit))
+			}
 		} else {
 			q.Set("id", sp.Id)
 			if len(sp.States) == 1 && sp.Kind == "SearchPromises" {
@@ -402,7 +412,7 @@ func (s *Sim) buildGRPC(client int, sp *ReqSpec, reqId string) (func(sgrpc.Servi
 			}
 			m = &pb.SearchPromisesRequest{Cursor: tok, RequestId: reqId}
 		} else if sp.RawCursor != "" {
-			m = &pb.SearchPromisesRequest{Cursor: sp.RawCursor, RequestId: reqId}
+			m.Cursor = sp.RawCursor
 		}
 		return func(g sgrpc.Services) (proto.Message, error) { return g.SearchPromises(ctx, m) }, true
 	case "SearchSchedules":
@@ -418,7 +428,7 @@ func (s *Sim) buildGRPC(client int, sp *ReqSpec, reqId string) (func(sgrpc.Servi
 			}
 			m = &pb.SearchSchedulesRequest{Cursor: tok, RequestId: reqId}
 		} else if sp.RawCursor != "" {
-			m = &pb.SearchSchedulesRequest{Cursor: sp.RawCursor, RequestId: reqId}
+			m.Cursor = sp.RawCursor
 		}
 		return func(g sgrpc.Services) (proto.Message, error) { return g.SearchSchedules(ctx, m) }, true
 	case "RawGRPC":
@@ -620,6 +630,11 @@ func (s *Sim) shadow(client int, rec *ReqRec) {
 // frontsMayDiffer: inputs for which the two wire formats legitimately differ
 // (HTTP cannot express a zero counter or an empty required field).
 func (s *Sim) frontsMayDiffer(sp *ReqSpec) bool {
+	if sp.RawCursor != "" {
+		// hand-made cursors come with out-of-range parameters: not a well-formed request, the
+		// HTTP binding refuses what gRPC ignores next to a cursor
+		return true
+	}
 	switch sp.Kind {
 	case "ClaimTask", "CompleteTask":
 		return s.resolveCounter(sp) == 0 || sp.Process == "" && sp.Kind == "ClaimTask"
